@@ -34,6 +34,31 @@ var $flatten64 = x => {
     return x.$high * 4294967296 + x.$low;
 };
 
+// $flatten64ToFloat32 converts a 64-bit integer to float32 with a single rounding:
+// going through a float64 first would round twice.
+var $flatten64ToFloat32 = x => {
+    var high = x.$high, low = x.$low, neg = false;
+    if (high < 0) {
+        neg = true;
+        low = (~low + 1) >>> 0;
+        high = (~high + (low === 0 ? 1 : 0)) >>> 0;
+    }
+    var f;
+    if (high < 0x200000) {
+        f = $fround(high * 4294967296 + low); /* exact as a float64 */
+    } else {
+        /* Keep 53 significant bits and fold the bits that are shifted out into the lowest one. */
+        var s = 11 - Math.clz32(high);
+        var lost = low & ((1 << s) - 1);
+        var lo = ((low >>> s) | (high << (32 - s))) >>> 0;
+        if (lost !== 0) {
+            lo = (lo | 1) >>> 0;
+        }
+        f = $fround(((high >>> s) * 4294967296 + lo) * Math.pow(2, s));
+    }
+    return neg ? -f : f;
+};
+
 var $shiftLeft64 = (x, y) => {
     if (y === 0) {
         return x;
